@@ -330,20 +330,45 @@ func ruleP3(c *Ctx) *RuleResult {
 			guard = ci.If
 		}
 	}
+	// the guard may sit in the only caller of a helper that does the drop (`if over { s.deleteOldestSegment() }`)
+	guardFn := fn
+	var guardCall ssa.Instruction
+	if guard == nil {
+		edges := c.callersOf(fn)
+		if len(edges) == 1 && edges[0].Site != nil {
+			caller := edges[0].Caller.Func
+			site, _ := edges[0].Site.(ssa.Instruction)
+			for _, ci := range ifsOn(caller, func(v ssa.Value) bool {
+				bo, ok := v.(*ssa.BinOp)
+				return ok && bo.Op == token.GTR && isLenOfField(bo.X, segF)
+			}) {
+				if site != nil && onlyIf(caller, site, []condIf{ci}, true) {
+					guard, guardFn, guardCall = ci.If, caller, site
+				}
+			}
+		}
+	}
 	if guard == nil {
 		r.fail("rotateSegments|drop-guard", c.Pos(sh.st.Pos()), FuncName(fn), "the drop is control dependent on len(s.segments) > s.segmentCount", "no such guard")
 		return r
 	}
-	r.ok("rotateSegments|drop-guard", c.Pos(guard.Pos()), FuncName(fn), "the drop is control dependent on len(s.segments) > s.segmentCount", "guard found")
+	r.ok("rotateSegments|drop-guard", c.Pos(guard.Pos()), FuncName(guardFn), "the drop is control dependent on len(s.segments) > s.segmentCount", "guard found")
 	// ... and on nothing else: once the window is over its bound, every path drops the head before it returns
 	{
 		th := guard.Block().Succs[0]
 		var bad []string
-		{
-			bad = pathAvoidingFromBlock(c, fn, th, func(x ssa.Instruction) bool { return x == sh.st }, func(x ssa.Instruction) bool {
-				_, isRet := x.(*ssa.Return)
-				return isRet
-			})
+		isRet := func(x ssa.Instruction) bool {
+			_, ok := x.(*ssa.Return)
+			return ok
+		}
+		if guardFn == fn {
+			bad = pathAvoidingFromBlock(c, fn, th, func(x ssa.Instruction) bool { return x == sh.st }, isRet)
+		} else {
+			// in the caller every path from the true branch reaches the helper; in the helper every path shrinks
+			bad = pathAvoidingFromBlock(c, guardFn, th, func(x ssa.Instruction) bool { return x == guardCall }, isRet)
+			if bad == nil {
+				bad = pathAvoidingFromBlock(c, fn, fn.Blocks[0], func(x ssa.Instruction) bool { return x == sh.st }, isRet)
+			}
 		}
 		if bad == nil {
 			r.ok("rotateSegments|drop-whenever", c.Pos(guard.Pos()), FuncName(fn), "whenever len(s.segments) > s.segmentCount the head is dropped before the function returns", "every path from the guard's true branch to a return passes the shrink")
@@ -355,11 +380,22 @@ func ruleP3(c *Ctx) *RuleResult {
 
 	isDropped := func(v ssa.Value) bool { return sameObject(v, dropped) }
 	thenBlock := guard.Block().Succs[0]
+	if guardFn != fn {
+		thenBlock = fn.Blocks[0]
+	}
 	first := thenBlock.Instrs[0]
 	mustPass := func(desc string, pred func(ssa.Instruction) bool) (bool, []string) {
 		// every path from the guard's true branch to the shrink passes an instruction satisfying pred
 		var virt ssa.Instruction = guard
 		_ = first
+		if guardFn != fn {
+			// the whole helper runs under the guard
+			if pred(first) {
+				return true, nil
+			}
+			bad := pathAvoidingFromBlock(c, fn, fn.Blocks[0], pred, func(x ssa.Instruction) bool { return x == sh.st })
+			return bad == nil, bad
+		}
 		bad := pathAvoiding(c, fn, virt, pred, func(x ssa.Instruction) bool { return x == sh.st })
 		// paths through the false branch never reach the shrink (checked by drop-guard)
 		return bad == nil, bad
@@ -422,7 +458,7 @@ func ruleP3(c *Ctx) *RuleResult {
 		culprit := ""
 		allInstrs(fn, func(in ssa.Instruction) {
 			ci, ok := in.(ssa.CallInstruction)
-			if !ok || !instrReaches(in, partsLoad) || !instrDominates(guard, in) && in.Block() != thenBlock {
+			if !ok || !instrReaches(in, partsLoad) || guardFn == fn && !instrDominates(guard, in) && in.Block() != thenBlock {
 				return
 			}
 			if classifySync(ci.Common()) != opNone {
@@ -482,7 +518,9 @@ func ruleP3(c *Ctx) *RuleResult {
 		key := fmt.Sprintf("rotateSegments|trim-after-append#%d", i+1)
 		afn := ap.Parent()
 		isGuard := func(x ssa.Instruction) bool { return x == guard }
-		if afn != fn {
+		if afn != fn && afn == guardFn {
+			// append and guard share the caller of the drop helper: the guard itself is the anchor
+		} else if afn != fn {
 			// the trim lives in a helper: the call of that helper plays the part of the guard
 			called := false
 			allInstrs(afn, func(x ssa.Instruction) {
